@@ -80,6 +80,7 @@ QueriesX == {
   \* a bare `@` under a logical operator; an aggregate that fails / whose path holds a nested filter with a `$` operand;
   \* a probe function in the right operand of && (it looks at the document during the call)
   And(Exist(Cur(<<>>)), Exist(Pa)), Or(Exist(Cur(<<>>)), Exist(Pb)),
+  And(Exist(Cur(<<Nm(ka), Un(<<Sl(0, TRUE, 0, TRUE, 1, TRUE)>>)>>)), Exist(Pb)),
   Cmp(">", Path("@", <<>>, <<AF(Fn_gerr)>>), Lit(N1)),
   Cmp(">", Path("@", <<Flt(Cmp("!=", Cur(<<>>), Root(<<Nm(kb)>>)))>>, <<AF(Fn_gcnt)>>), Lit(Num(0))),
   And(Exist(Pa), Exist(Path("@", <<Nm(kb)>>, <<FF(Fn_fprobe)>>))),
@@ -94,7 +95,7 @@ Brackets == { Multi(<<Nm(ka), Nm(kb)>>), Multi(<<Nm(kb), Nm(ka), Nm(ka)>>),
               Un(<<Idx(0)>>), Un(<<Idx(-1)>>), Un(<<Idx(1), Idx(0)>>), Un(<<Idx(0), Idx(0)>>),
               Un(<<Sl(1, FALSE, 0, TRUE, 1, TRUE)>>), Un(<<Sl(0, TRUE, 0, TRUE, -1, FALSE)>>),
               Un(<<Sl(0, TRUE, 0, TRUE, 2, FALSE)>>), Un(<<Idx(0), Sl(0, FALSE, 1, FALSE, 1, TRUE), Star>>),
-              Un(<<Star, Idx(0)>>) }
+              Un(<<Star, Idx(0)>>), Un(<<Sl(0, TRUE, 0, TRUE, 1, TRUE)>>) }
 SigmaPairs == {Nm(ka), Nm(kb), Wild} \cup Brackets \cup {Flt(q) : q \in (IF DocSet = "small" THEN QueriesQ ELSE Queries \cup QueriesQ)}
 SigmaTriples == {Nm(ka), Nm(kb), Wild, Multi(<<Nm(ka), Nm(kb)>>), Multi(<<Wild, Wild>>), Multi(<<Wild, Nm(ka)>>),
                  Un(<<Idx(0)>>), Un(<<Idx(1), Idx(0)>>), Un(<<Sl(0, TRUE, 0, TRUE, -1, FALSE)>>), Un(<<Star, Idx(0)>>)}
